@@ -38,6 +38,8 @@ Definition x_init2 := init2 ctr_init_index ctr_init_byte.
 Definition x_stream_cfg := stream_cfg.
 Definition x_aesctr_buf (E : list N -> list N) := aesctr_buf E ctr_init_index ctr_init_byte.
 Definition x_ctr_spec := ctr_spec.
+Definition x_ctr_spec_from := ctr_spec_from.
+Definition x_seek := seek.
 
 (* release paths *)
 Definition x_key_free_aesni := run_free_calls alloc_expr_key_aesni free_calls_key_aesni.
